@@ -684,32 +684,39 @@ Section LexTotal.
       apply IH. simpl in H. lia.
   Qed.
 
-  Notation gl := (glue is_letter is_digit is_number ftype to_lower case_sensitive).
+  Variable maxd : option nat.
+  Notation gl := (glue is_letter is_digit is_number ftype to_lower case_sensitive maxd).
 
-  Lemma glue_ok : forall f ts depth operand, length ts < f ->
-    gl f ts depth operand = RErr \/ exists l, gl f ts depth operand = ROk l.
+  Lemma glue_ok : forall f ts depth operand bases base pending, length ts < f ->
+    gl f ts depth operand bases base pending = RErr \/
+    exists l, gl f ts depth operand bases base pending = ROk l.
   Proof.
-    induction f as [|f IH]; intros ts depth operand H; [lia|].
+    induction f as [|f IH]; intros ts depth operand bases base pending H; [lia|].
     cbn [glue]. destruct ts as [|t r]; [right; eexists; reflexivity|].
     assert (Hr : length r < f) by (simpl in H; lia).
-    assert (Hrec : forall d o (k : list tok -> list tok),
-       (do l <- gl f r d o; ROk (k l)) = RErr \/
-       exists l, (do l <- gl f r d o; ROk (k l)) = ROk l).
-    { intros d o k. destruct (IH r d o Hr) as [E | [l E]]; rewrite E; cbn [rbind].
+    assert (Hrec : forall d o bs b pd (k : list tok -> list tok),
+       (do l <- gl f r d o bs b pd; ROk (k l)) = RErr \/
+       exists l, (do l <- gl f r d o bs b pd; ROk (k l)) = ROk l).
+    { intros d o bs b pd k. destruct (IH r d o bs b pd Hr) as [E | [l E]]; rewrite E; cbn [rbind].
       - left. reflexivity.
       - right. eexists. reflexivity. }
     destruct operand.
-    - destruct (is_kw wildcard_bytes t && Nat.eqb depth 0); [apply (Hrec depth false (cons (TAtom 0)))|].
-      destruct (is_kw kw_lp t); [apply (Hrec (S depth) true (cons TLP))|].
-      destruct (is_kw kw_not t); [apply (Hrec depth true (cons TNot))|].
+    - cbv zeta. destruct (over maxd (S (base + pending))); [left; reflexivity|].
+      destruct (is_kw wildcard_bytes t && Nat.eqb depth 0);
+        [apply (Hrec depth false bases base 0 (cons (TAtom 0)))|].
+      destruct (is_kw kw_lp t);
+        [apply (Hrec (S depth) true (base :: bases) (S (base + pending)) 0 (cons TLP))|].
+      destruct (is_kw kw_not t); [apply (Hrec depth true bases base (S pending) (cons TNot))|].
       destruct (field_filter_ok (t :: r)) as [Hf | [toks [ts' [Hf Hl]]]]; rewrite Hf; cbn [rbind].
       + left. reflexivity.
-      + destruct (IH ts' depth false) as [E | [l E]]; [simpl in Hl; lia | |]; rewrite E; cbn [rbind].
+      + destruct (IH ts' depth false bases base 0) as [E | [l E]]; [simpl in Hl; lia | |];
+          rewrite E; cbn [rbind].
         * left. reflexivity.
         * right. eexists. reflexivity.
-    - destruct (is_kw kw_and t); [apply (Hrec depth true (cons TAnd))|].
-      destruct (is_kw kw_or t); [apply (Hrec depth true (cons TOr))|].
-      destruct (is_kw kw_rp t); [apply (Hrec (pred depth) false (cons TRP))|].
+    - destruct (is_kw kw_and t); [apply (Hrec depth true bases base 0 (cons TAnd))|].
+      destruct (is_kw kw_or t); [apply (Hrec depth true bases base 0 (cons TOr))|].
+      destruct (is_kw kw_rp t);
+        [apply (Hrec (pred depth) false (tl bases) (hd 0 bases) 0 (cons TRP))|].
       destruct (is_kw kw_pipe t); [| left; reflexivity].
       destruct (pipes_ok (S (length (t :: r))) (t :: r) 0) as [Hp | Hp]; [lia | |];
         rewrite Hp; cbn [rbind].
@@ -717,13 +724,24 @@ Section LexTotal.
       + right. eexists. reflexivity.
   Qed.
 
+  (* an operand entered with `limit` frames on the stack is rejected *)
+  Lemma glue_rejects : forall m f t r depth bases base pending,
+    maxd = Some m -> m <= base + pending ->
+    gl (S f) (t :: r) depth true bases base pending = RErr.
+  Proof.
+    intros m f t r depth bases base pending Hm Hle. cbn [glue]. cbv zeta. rewrite Hm.
+    assert (E : over (Some m) (S (base + pending)) = true) by (simpl; apply Nat.ltb_lt; lia).
+    rewrite E. reflexivity.
+  Qed.
+
   Lemma seqql_parse_total : forall q,
-    seqql_parse is_space is_letter is_digit is_number ftype to_lower case_sensitive q = RErr \/
-    exists a, seqql_parse is_space is_letter is_digit is_number ftype to_lower case_sensitive q = ROk a.
+    seqql_parse is_space is_letter is_digit is_number ftype to_lower case_sensitive maxd q = RErr \/
+    exists a, seqql_parse is_space is_letter is_digit is_number ftype to_lower case_sensitive maxd q
+              = ROk a.
   Proof.
     intros q. unfold seqql_parse.
     destruct (lex_total q) as [lts Hl]. rewrite Hl. cbn [rbind].
-    destruct (glue_ok (S (length lts)) lts 0 true) as [Hg | [ts Hg]]; [lia | |];
+    destruct (glue_ok (S (length lts)) lts 0 true [] 0 0) as [Hg | [ts Hg]]; [lia | |];
       rewrite Hg; cbn [rbind].
     - left. reflexivity.
     - pose proof (parse_total ts) as Hp.
